@@ -178,6 +178,54 @@ def body(chk):
                 if abs(step(q1, f1, t) - min(1.0, ecdf_at(lo, t) + D)) > 1e-12 or abs(step(q2, f2, t) - max(0.0, ecdf_at(hi, t) - D)) > 1e-12:
                     chk.report("KS_bounds:interval", f"interval-data bounds at x={t} are not ecdf(lower endpoints)+D / ecdf(upper endpoints)-D", dict(rep, lo=lo, hi=hi))
                     break
+    # ---- one data object used twice, results held: the same ndarray (and the same Interval vector) goes through KS_bounds with two
+    # confidence levels; both results are read AFTER the second call and decided against the data as given
+    def _exact(sample, alpha, bl, br):
+        n = len(sample)
+        D = float(d_alpha(n, alpha))
+        q, fl, fr = np.array(bl.quantiles, float), np.array(bl.probabilities, float), np.array(br.probabilities, float)
+        srt = sorted(sample)
+        if len(q) != n + 1:
+            return f"grid has {len(q)} points for {n} data"
+        for k in range(len(q)):
+            p = 0.0 if k == 0 else k / n
+            up, dn = min(1.0, max(0.0, p + D)), min(1.0, max(0.0, p - D))
+            if abs(fl[k] - up) > 1e-12 or abs(fr[k] - dn) > 1e-12:
+                return f"at grid point {k} the bounds are [{fr[k]}, {fl[k]}], expected ecdf -+ D = [{dn}, {up}] with D = {D}"
+            if k > 0 and q[k] != srt[k - 1]:
+                return f"grid abscissa {k} is {q[k]}, expected the {k}-th order statistic {srt[k - 1]}"
+        return None
+    for rd in range(4 if chk.tier == "quick" else 40):
+        data = [rng.gauss(0, 3) for _ in range(rng.randint(3, 40))]
+        rng.shuffle(data)
+        arr = np.array(data)
+        a1, a2 = rng.sample([0.025, 0.05, 0.1], 2)
+        chk.count("reuse-precise", key=("reuse", rd))
+        try:
+            r1 = KS_bounds(arr, a1, display=False)
+            r2 = KS_bounds(arr, a2, display=False)
+            for which, (al, r) in enumerate(((a1, r1), (a2, r2))):
+                why = _exact(data, al, r[0], r[1])
+                if why:
+                    chk.report("KS_bounds:precise:reuse", f"call {which + 1} of two calls on ONE ndarray (alpha {a1} then {a2}), results read after the second call: {why}",
+                               {"kind": "oracle", "sample": data, "alphas": [a1, a2]})
+                    break
+        except Exception as e:
+            chk.report("KS_bounds:precise:reuse", f"raises {type(e).__name__}: {e}", {"kind": "oracle", "sample": data, "alphas": [a1, a2]})
+        # the same for interval data (degenerate intervals: the band must be that of the precise sample)
+        iv = I(list(data), list(data))
+        chk.count("reuse-interval", key=("reuse-I", rd))
+        try:
+            r1 = KS_bounds(iv, a1, display=False)
+            r2 = KS_bounds(iv, a2, display=False)
+            for which, (al, r) in enumerate(((a1, r1), (a2, r2))):
+                why = _exact(data, al, r[0], r[1])
+                if why:
+                    chk.report("KS_bounds:interval:reuse", f"call {which + 1} of two calls on ONE Interval vector with degenerate elements (alpha {a1} then {a2}): {why}",
+                               {"kind": "oracle", "sample": data, "alphas": [a1, a2]})
+                    break
+        except Exception as e:
+            chk.report("KS_bounds:interval:reuse", f"raises {type(e).__name__}: {e}", {"kind": "oracle", "sample": data, "alphas": [a1, a2]})
     chunks = []
     CH = 12
     for s in range(0, len(items), CH):
